@@ -1108,14 +1108,26 @@ def corpus_corr_cases():
     return out
 
 
+def _dead_scalar_wrap(info):
+    import ast as _ast
+    st = info['stmt']
+    return (info['name'].endswith('to_180_range') and isinstance(st, _ast.AugAssign) and isinstance(st.op, _ast.Add)
+            and isinstance(st.target, _ast.Name) and any(isinstance(p, _ast.If) for p in info['parents']))
+
+
 # Lines of the anchored functions that may stay unreached, each with its reason:
 COV_ALLOW = (
     # compute_state_difference: mixed DataFrame / Series input is rejected; outside the property's quantifier
     # (pairs of tables, pairs of Series) and outside the model
+    # (matched structurally: any `raise ValueError(...)` statement of compute_state_difference, however its
+    # message is spelled)
     'raise ValueError("Both inputs must be either DataFrame or Series")',
     # to_180_range scalar path, body of `elif result < -180:` -- dead code: `angle % 360` is never negative
     # (C18_to180_range_congruent is proved from exactly this fact, Proofs/To180Proofs.v to180_scalar_cases)
     'result += 360',
+    # the same line whatever the local variable / constant is called: in to_180_range, an augmented `+=` on a plain
+    # name (the ndarray path assigns through a mask subscript) inside an if/elif arm
+    _dead_scalar_wrap,
 )
 
 
@@ -1162,7 +1174,7 @@ def check(r):
     summ, missing = cov.report(allow=COV_ALLOW)
     _, missing_all = cov.report(allow=())
     allowed_hit = [m for m in missing_all if m not in missing]     # allowed lines that indeed stayed unreached
-    r.coverage['code_lines'] = dict(functions=summ, allowed=list(COV_ALLOW), allowed_and_unreached=allowed_hit,
+    r.coverage['code_lines'] = dict(functions=summ, allowed=[a if isinstance(a, str) else a.__name__ for a in COV_ALLOW], allowed_and_unreached=allowed_hit,
                                     measured=measured)
     r.log("code lines (executed/reachable): "
           + ", ".join(f"{k.split('.')[-1]} {v['executed']}/{v['executed'] + len(v['unreached'])}" for k, v in summ.items())
